@@ -64,7 +64,7 @@ class Loader:
         # Take into account user specified lmax
         meta["lmax"] = meta["levelmax"]
         if "mesh" in _select:
-            if _select["mesh"]:
+            if isinstance(_select["mesh"], dict):
                 if "level" in _select["mesh"]:
                     meta["lmax"] = utils.find_max_amr_level(
                         levelmax=meta["levelmax"], select=_select["mesh"]
